@@ -332,7 +332,7 @@ theorem specOps_rel {B : Backend} {C : Contract} {val : List Nat → Fp} (S : Ba
     · show (limbOps B).const i = some ((limbOpsW B).const i)
       rw [e]; simp only [limbOps, hl]
     · show EnvIn ((limbOpsW B).const i) _
-      rw [e]; exact EnvIn_point l
+      rw [e]; exact AlgBoundsSound.EnvIn_point l
     · show val ((limbOpsW B).const i) = zmodOps.const i
       rw [e]; exact S.const i l hl
   ctEq := by
